@@ -186,7 +186,7 @@ func (ex *Exec) lenOf(st *State, v Value, t types.Type) Value {
 func (ex *Exec) elemPtr(st *State, s SliceV, i *Term) Ptr {
 	e := ex.tb.Add(s.Off, i)
 	o := st.obj(s.Obj)
-	if o.kind == ObjSmt {
+	if o.kind == ObjSmt || o.kind == ObjSparse {
 		return Ptr{Obj: s.Obj, Sym: e}
 	}
 	if e.IsConst() {
@@ -271,6 +271,21 @@ func (ex *Exec) fillZero(st *State, s SliceV, et types.Type) {
 		return
 	}
 	o := st.obj(s.Obj)
+	if o.kind == ObjSparse {
+		if s.Off.IsConst() && s.Off.c == 0 && valueIsZero(o.SpDef) {
+			// clearing a prefix [0,len): drop the writes the path condition places inside it
+			var keep []SpWrite
+			for _, wr := range o.SpWrites {
+				if !ex.decide(st, ex.tb.Ult(wr.Idx, s.Len)) {
+					keep = append(keep, wr)
+				}
+			}
+			w := st.wobj(s.Obj)
+			w.SpWrites = keep
+			return
+		}
+		panic(cutPath{"clear of a sparse array that is not sliced from its start"})
+	}
 	if o.kind == ObjSmt && !(s.Len.IsConst() && s.Len.c <= 64) {
 		lambdaCounter++
 		iv := fmt.Sprintf("li!%d", lambdaCounter)
@@ -408,6 +423,76 @@ func (ex *Exec) appendOp(st *State, s SliceV, extra Value, sliceT types.Type, in
 		ex.copyElems(st, ns, s.Len, extra, n)
 		ex.account(st, tb.Mul(nc, ex.c64(esz)), instr)
 		return ns
+	}
+	var srcSparse, extraSparse bool
+	if s.Obj != 0 {
+		srcSparse = st.obj(s.Obj).kind == ObjSparse
+	}
+	if es, ok := extra.(SliceV); ok && es.Obj != 0 {
+		extraSparse = st.obj(es.Obj).kind == ObjSparse
+	}
+	if w == 0 && (srcSparse || extraSparse || !newLen.IsConst() || newLen.c > 1<<16) {
+		// symbolic growth of a buffer of non-scalar elements: the result is a sparse array
+		nc := tb.Fresh("cap", BV(64))
+		st.assume(tb.Uge(nc, newLen))
+		st.assume(tb.Ule(newLen, ex.c64(1<<46)))
+		st.assume(tb.Ule(s.Cap, ex.c64(1<<46)))
+		st.assume(tb.Ule(nc, tb.Add(tb.Shl(tb.Add(s.Cap, newLen), ex.c64(1)), ex.c64(8192))))
+		o := st.newObj(ObjSparse, et, "append")
+		o.ALen = nc
+		o.SpDef = ex.zero(et)
+		var writes []SpWrite
+		// old elements
+		if s.Obj != 0 {
+			if srcSparse {
+				so := st.obj(s.Obj)
+				if !(s.Off.IsConst() && s.Off.c == 0) {
+					panic(cutPath{"append to a sparse array that is not sliced from its start"})
+				}
+				if !valueIsZero(so.SpDef) {
+					panic(cutPath{"append to a sparse array with a non-zero default"})
+				}
+				// writes at or beyond the old length are not part of the slice: keep only those the path condition places inside
+				for _, wr := range so.SpWrites {
+					if ex.decide(st, tb.Ult(wr.Idx, s.Len)) {
+						writes = append(writes, wr)
+					}
+				}
+			} else {
+				oldLen := ex.concretize(st, s.Len, "append: old length")
+				if oldLen > 1<<16 {
+					panic(cutPath{"append: more than 65536 old non-scalar elements"})
+				}
+				for i := uint64(0); i < oldLen; i++ {
+					writes = append(writes, SpWrite{Idx: ex.c64(i), V: ex.load(st, ex.elemPtr(st, s, ex.c64(i)), nil)})
+				}
+			}
+		}
+		// appended elements
+		switch e := extra.(type) {
+		case SliceV:
+			if e.Obj != 0 {
+				if extraSparse {
+					eo := st.obj(e.Obj)
+					if len(eo.SpWrites) != 0 || !valueIsZero(eo.SpDef) {
+						panic(cutPath{"append of a sparse array that has been written"})
+					}
+				} else {
+					cnt := ex.concretize(st, n, "append: added length")
+					if cnt > 1<<16 {
+						panic(cutPath{"append: more than 65536 added non-scalar elements"})
+					}
+					for i := uint64(0); i < cnt; i++ {
+						writes = append(writes, SpWrite{Idx: tb.Add(s.Len, ex.c64(i)), V: ex.load(st, ex.elemPtr(st, e, ex.c64(i)), nil)})
+					}
+				}
+			}
+		default:
+			panic(cutPath{"append of a string to non-scalar elements"})
+		}
+		o.SpWrites = writes
+		ex.account(st, tb.Mul(nc, ex.c64(esz)), instr)
+		return SliceV{Obj: o.id, Off: ex.c64(0), Len: newLen, Cap: nc}
 	}
 	oldLen := ex.concretize(st, s.Len, "append: old length")
 	oldCap := ex.concretize(st, s.Cap, "append: old capacity")
@@ -610,4 +695,43 @@ func (ex *Exec) doSelect(st *State, f *Frame, in *ssa.Select) Value {
 		return res
 	}
 	panic(endPath{"select blocks forever (no goroutine can make a case ready in the sequential model)"})
+}
+
+// valueIsZero reports whether v is the zero value of its type (nil pointer / nil slice / zero scalar / nil interface ...).
+func valueIsZero(v Value) bool {
+	switch x := v.(type) {
+	case nil:
+		return true
+	case *Term:
+		return x.IsConst() && x.c == 0
+	case Ptr:
+		return x.Obj == 0
+	case SliceV:
+		return x.Obj == 0
+	case Iface:
+		return x.T == nil && x.SymNil == nil
+	case MapV:
+		return x.Obj == 0
+	case ChanV:
+		return x.Obj == 0
+	case FuncV:
+		return x.Fn == nil && x.Builtin == nil && x.Native == ""
+	case Str:
+		return x.Sym == nil && x.S == ""
+	case StructV:
+		for _, e := range x {
+			if !valueIsZero(e) {
+				return false
+			}
+		}
+		return true
+	case ArrayV:
+		for _, e := range x {
+			if !valueIsZero(e) {
+				return false
+			}
+		}
+		return true
+	}
+	return false
 }
